@@ -20,6 +20,117 @@ func init() {
 	register("C14", "(a) after random operation histories on a real tracker every value any method returns (nick and channel snapshots, their mode structs, membership maps, privilege structs) is mutated in every field / entry and the tracker's full observation and internal dump must stay the same, and snapshots kept from earlier must equal their deep copies after further tracker operations; (b) a -race build of a stress program (8 goroutines, all 17 methods, callers scribbling over returned values) must finish without a race report; (c) timed concurrent histories (2-4 goroutines x 3-6 random operations, and 4-7 goroutines released together each doing one operation that fights over the same fresh nick / channel / membership) must be linearizable w.r.t. the relational Spec (Wing-Gong search in the Lean driver); non-trivial = snapshot with at least one membership / history with overlapping operations; distinct by history", c14)
 }
 
+// genericScribble mutates everything reachable from v by reflection, whatever fields the types have: strings, bools and
+// numbers are overwritten, slice elements overwritten in place (the slice is also re-sliced to its capacity and written
+// there), map entries overwritten and one inserted, pointers followed. It complements the hand-written scribblers below,
+// which know the present fields: a reference-typed field added later is covered too.
+func genericScribble(v reflect.Value, depth int) {
+	if depth > 6 || !v.IsValid() {
+		return
+	}
+	switch v.Kind() {
+	case reflect.Ptr, reflect.Interface:
+		if !v.IsNil() {
+			genericScribble(v.Elem(), depth+1)
+		}
+	case reflect.Struct:
+		for i := 0; i < v.NumField(); i++ {
+			if v.Field(i).CanSet() {
+				genericScribble(v.Field(i), depth+1)
+			}
+		}
+	case reflect.String:
+		if v.CanSet() {
+			v.SetString("scribble")
+		}
+	case reflect.Bool:
+		if v.CanSet() {
+			v.SetBool(!v.Bool())
+		}
+	case reflect.Int, reflect.Int64, reflect.Int32:
+		if v.CanSet() {
+			v.SetInt(v.Int() + 77)
+		}
+	case reflect.Slice:
+		full := v
+		if v.CanSet() && v.Cap() > v.Len() {
+			full = v.Slice(0, v.Cap())
+		}
+		for i := 0; i < full.Len(); i++ {
+			genericScribble(full.Index(i), depth+1)
+		}
+	case reflect.Map:
+		for _, k := range v.MapKeys() {
+			e := v.MapIndex(k)
+			if e.Kind() == reflect.Ptr || e.Kind() == reflect.Map || e.Kind() == reflect.Slice {
+				genericScribble(e, depth+1)
+			} else {
+				n := reflect.New(e.Type()).Elem()
+				n.Set(e)
+				genericScribble(n, depth+1)
+				v.SetMapIndex(k, n)
+			}
+		}
+	}
+}
+
+// genericDeep is a reflection deep copy (pointers, maps, slices, structs) of the values the tracker returns
+func genericDeep(v reflect.Value) reflect.Value {
+	switch v.Kind() {
+	case reflect.Ptr:
+		if v.IsNil() {
+			return v
+		}
+		n := reflect.New(v.Type().Elem())
+		n.Elem().Set(genericDeep(v.Elem()))
+		return n
+	case reflect.Struct:
+		n := reflect.New(v.Type()).Elem()
+		n.Set(v)
+		for i := 0; i < v.NumField(); i++ {
+			if n.Field(i).CanSet() {
+				n.Field(i).Set(genericDeep(v.Field(i)))
+			}
+		}
+		return n
+	case reflect.Slice:
+		if v.IsNil() {
+			return v
+		}
+		n := reflect.MakeSlice(v.Type(), v.Len(), v.Len())
+		for i := 0; i < v.Len(); i++ {
+			n.Index(i).Set(genericDeep(v.Index(i)))
+		}
+		return n
+	case reflect.Map:
+		if v.IsNil() {
+			return v
+		}
+		n := reflect.MakeMap(v.Type())
+		for _, k := range v.MapKeys() {
+			n.SetMapIndex(k, genericDeep(v.MapIndex(k)))
+		}
+		return n
+	}
+	return v
+}
+
+// snapAll: deep copies of fresh snapshots of everything in the universe (whatever fields they have)
+func snapAll(t state.Tracker, nicks, chans []string) map[string]interface{} {
+	out := map[string]interface{}{}
+	for _, n := range nicks {
+		if x := t.GetNick(n); x != nil {
+			out["n:"+n] = genericDeep(reflect.ValueOf(x)).Interface()
+		}
+	}
+	for _, ch := range chans {
+		if x := t.GetChannel(ch); x != nil {
+			out["c:"+ch] = genericDeep(reflect.ValueOf(x)).Interface()
+		}
+	}
+	return out
+}
+
 // scribble mutates everything reachable from a returned value.
 func scribbleNick(n *state.Nick) {
 	if n == nil {
@@ -157,15 +268,18 @@ func c14Snapshots(c *Ctx) {
 			}
 			_ = before
 			after := observe(t, nicks, chans) + "||" + state.VerifDump(t)
+			afterSnap := snapAll(t, nicks, chans)
 			// keep the returned value and a deep copy of it for later
 			if rn != nil {
 				if len(rn.Channels) > 0 {
 					nontrivial = true
 				}
 				if c.R.Bool() {
-					oldN = append(oldN, keptN{rn, deepNick(rn)})
-				} else {
+					oldN = append(oldN, keptN{rn, genericDeep(reflect.ValueOf(rn)).Interface().(*state.Nick)})
+				} else if c.R.Bool() {
 					scribbleNick(rn)
+				} else {
+					genericScribble(reflect.ValueOf(rn), 0)
 				}
 			}
 			if rc != nil {
@@ -173,9 +287,11 @@ func c14Snapshots(c *Ctx) {
 					nontrivial = true
 				}
 				if c.R.Bool() {
-					oldC = append(oldC, keptC{rc, deepChan(rc)})
-				} else {
+					oldC = append(oldC, keptC{rc, genericDeep(reflect.ValueOf(rc)).Interface().(*state.Channel)})
+				} else if c.R.Bool() {
 					scribbleChan(rc)
+				} else {
+					genericScribble(reflect.ValueOf(rc), 0)
 				}
 			}
 			if rp != nil {
@@ -183,6 +299,9 @@ func c14Snapshots(c *Ctx) {
 			}
 			// changing returned values never alters tracker state
 			after2 := observe(t, nicks, chans) + "||" + state.VerifDump(t)
+			if after2 == after && !reflect.DeepEqual(afterSnap, snapAll(t, nicks, chans)) {
+				after2 += " (fresh snapshots differ in a field the textual observation does not show)"
+			}
 			if after2 != after {
 				c.SpecFail("spec", "history "+strings.Join(descs, "; "), "", "mutating the value returned by "+o.String()+" changed the tracker: "+trunc(after, 300)+" -> "+trunc(after2, 300),
 					map[string]interface{}{"op": "snapshot-mutation", "ops": descs})
